@@ -6,6 +6,7 @@ the public key, freshness of the drawn credential id) is evaluated by the Spec o
 observations (Spec/Client.lean `c02_register`); the theorems say which values the response and the store
 are built from, for every request, store, user-validation behaviour and draw.
 -/
+import PasskeyVerif.Lemmas.Cbor
 import PasskeyVerif.Lemmas.Client
 import PasskeyVerif.Spec.Client
 namespace PasskeyVerif.C02
@@ -114,5 +115,20 @@ theorem C02_exactly_one_added (kind : StoreKind) (items : List Passkey) (pk : Pa
 /-- the configured credential-id length is the requested one clamped to 16..64 -/
 theorem C02_id_length_clamped (n : Nat) : 16 ≤ clampIdLen n ∧ clampIdLen n ≤ 64 ∧ (16 ≤ n → n ≤ 64 → clampIdLen n = n) := by
   unfold clampIdLen; omega
+
+/-- **What a relying party reads out of the attestation object**: decoding the bytes with the CBOR reader (whose
+round trip is proved in Lemmas/Cbor.lean) gives the map with format "none", an empty statement and exactly the
+authenticator data that was wrapped — for authenticator data of any content and any length below 2^64. -/
+theorem C02_attestation_object_decodes (ad : Bytes) (h : ad.length < 2 ^ 64) :
+    rpAttestation (attestationObject ad) = some ([0x6e, 0x6f, 0x6e, 0x65], ad, .map []) := by
+  have hwf : (attestationItem ad).WF = true := by
+    have h2 : decide (ad.length < Cbor.two64) = true := decide_eq_true (by simpa [Cbor.two64] using h)
+    simp [attestationItem, Cbor.Item.WF, Cbor.wfPairs, kFmt, kNone, kAttStmt, kAuthData, Cbor.two64] at h2 ⊢
+    exact h2
+  have hdec := Cbor.decode1_encode (attestationItem ad) hwf []
+  rw [List.append_nil] at hdec
+  unfold rpAttestation attestationObject
+  rw [hdec]
+  rfl
 
 end PasskeyVerif.C02
